@@ -23,6 +23,7 @@ type crashCase struct {
 	CrashAt  int           `json:"crash_at"`
 	Events   []string      `json:"events_until_crash,omitempty"`
 	After    []string      `json:"events_of_recovery,omitempty"`
+	PluginLayer bool       `json:"plugin_layer,omitempty"` // decorated plugins + second plugin: crash points between two plugins' writes
 }
 
 func waitSettled(b *sim.Boundary, window, patience time.Duration) bool {
@@ -73,7 +74,7 @@ func TestC14(t *testing.T) {
 		}
 		walFile := filepath.Join(tmp, fmt.Sprintf("run-%d.wal", run))
 		instA, instB := fmt.Sprintf("A%d", run), fmt.Sprintf("B%d", run)
-		a := sim.Boot(t, b, sim.BootOpts{Inst: instA, WALFile: walFile}, base)
+		a := sim.Boot(t, b, sim.BootOpts{Inst: instA, WALFile: walFile, PluginLayer: cc.PluginLayer}, base)
 		if base == nil {
 			base = a
 		}
@@ -149,7 +150,7 @@ func TestC14(t *testing.T) {
 			l.ForceRelease() // what lease expiry does after LockTimeout
 		}
 		seq1 := b.Seq()
-		bcl := sim.Boot(t, b, sim.BootOpts{Inst: instB, WALFile: walFile}, base)
+		bcl := sim.Boot(t, b, sim.BootOpts{Inst: instB, WALFile: walFile, PluginLayer: cc.PluginLayer}, base)
 		bcl.C.DisasterRecover(bcl.Ctx("recover"))
 		if !bcl.WaitQuiet(15 * time.Second) {
 			rec.Count("recoveries_not_quiet_within_15s", 1)
@@ -244,10 +245,15 @@ func TestC14(t *testing.T) {
 		if op.Res.Memory > 1<<28 {
 			op.Res.Memory = 1 << 26
 		}
-		n, _ := oneRun(&crashCase{Topology: topo, Op: op, CrashAt: 0})
+		pl := env.Batch%2 == 1 // odd batches: plugin layer (the whole process, the first instance owns the second plugin's records)
+		if pl {
+			op.Res.Slots = int64(1 + r.Intn(3))
+			rec.Count("deployments_with_plugin_layer", 1)
+		}
+		n, _ := oneRun(&crashCase{Topology: topo, Op: op, CrashAt: 0, PluginLayer: pl})
 		rec.Count("deployments", 1)
 		for k := 1; k <= n+3; k++ {
-			if _, fired := oneRun(&crashCase{Topology: topo, Op: op, CrashAt: k}); !fired {
+			if _, fired := oneRun(&crashCase{Topology: topo, Op: op, CrashAt: k, PluginLayer: pl}); !fired {
 				break
 			}
 		}
